@@ -928,6 +928,12 @@ func filesScenario(r *hx.Rand, dir string) scenario {
 		tags["colsets"] = true
 		masks = [][]int{{3, 1, 2}, {7, 1, 2}, {7, 3, 5}, {3, 2, 1}, {7, 6, 1}, {7, 4, 2}}[r.Intn(6)]
 	}
+	noteFile := -1
+	if nfiles >= 2 && r.Chance(1, 5) {
+		noteFile = r.Intn(nfiles)
+		tags["emptykey"] = true
+		tags["tables"] = true
+	}
 	var paths []string
 	labels := []string{"old", "new", "exp-with-a-long-name"}
 	for f := 0; f < nfiles; f++ {
@@ -956,7 +962,12 @@ func filesScenario(r *hx.Rand, dir string) scenario {
 		if len(masks) > 0 {
 			unitMask = masks[f]
 		}
-		os.WriteFile(p, []byte(genFile(r, benches, pkgs, scale, tags)), 0o666)
+		content := genFile(r, benches, pkgs, scale, tags)
+		if f == noteFile {
+			// a file key only this file has: the other files' tables carry it with an EMPTY value
+			content = "note: first\n" + content
+		}
+		os.WriteFile(p, []byte(content), 0o666)
 		unitMask = 0
 		if r.Chance(2, 3) {
 			paths = append(paths, labels[f]+"="+p)
